@@ -85,8 +85,23 @@ theorem output_channels (strides chans hs ws : List Nat) (heads : List Head) (hi
   simp only at ho
   rw [ho]
 
-example : HeadKind.channels (.confmaps 13) = 13 ∧ HeadKind.channels .centroid = 1
-    ∧ HeadKind.channels (.pafs 4) = 8 ∧ HeadKind.channels (.classMaps 2) = 2 := by decide
+/-- PAF head: exactly `2 × len(edges)` channels for **any** configured edge list — reversed
+    duplicates, exact duplicates, any order (no de-duplication), like `generate_pafs`' targets. -/
+theorem paf_channels_eq_two_len (edges : List (Nat × Nat)) (os : Nat) :
+    ((HeadKind.pafs edges).toHead os).ch = 2 * edges.length := rfl
+
+/-- confidence-map heads: exactly `len(part_names)` channels for any list (repeated names count) -/
+theorem confmap_channels_eq_len (parts : List Nat) (os : Nat) :
+    ((HeadKind.confmaps parts).toHead os).ch = parts.length ∧ (HeadKind.centroid.toHead os).ch = 1 :=
+  ⟨rfl, rfl⟩
+
+/-- adding the reverse of an edge, or listing an edge twice, adds two channels each time -/
+theorem paf_channels_no_dedup (edges : List (Nat × Nat)) (u v os : Nat) :
+    ((HeadKind.pafs ((v, u) :: (u, v) :: (u, v) :: edges)).toHead os).ch
+      = ((HeadKind.pafs edges).toHead os).ch + 6 := by
+  simp only [HeadKind.toHead, HeadKind.channels, List.length_cons]; omega
+
+example : ((HeadKind.pafs [(0, 1), (1, 2), (2, 1), (1, 2)]).toHead 4).ch = 8 := by decide
 
 /-- Encoder, spatial pass: on a positive multiple `m · S` of the total stride `S`, in either
     pooling state, every op divides exactly; the output has size `m` and the `i`-th skip feature
